@@ -20,6 +20,8 @@ import vcheck
 
 HERE = os.path.dirname(os.path.dirname(os.path.abspath(__file__)))
 EMPTY_STACK_FINDING = "empty-stack-weight-lost"
+COLLISION_IN = "node-id-collision-in-profile"
+COLLISION_ACROSS = "node-id-collision-across-profiles"
 
 
 M64 = (1 << 64) - 1
@@ -135,11 +137,12 @@ def eval_cases(ck, name, cases, hashes):
     """-> (mismatch ids, {id: spec result 1|2}, hash mismatch ids, raw output)"""
     txt = (HEADER + wire_defs("c", [case_wire(c) for c in cases]) + wire_defs("h", [hash_wire(h) for h in hashes]) +
            "Definition ALL := Eval vm_compute in all_results cs.\n"
-           "Definition D := Eval vm_compute in fst (fst (fst ALL)).\nPrint D.\n"
-           "Definition M := Eval vm_compute in snd (fst (fst ALL)).\nPrint M.\n"
-           "Definition V := Eval vm_compute in snd (fst ALL).\nPrint V.\n"
+           "Definition D := Eval vm_compute in fst (fst (fst (fst ALL))).\nPrint D.\n"
+           "Definition M := Eval vm_compute in snd (fst (fst (fst ALL))).\nPrint M.\n"
+           "Definition V := Eval vm_compute in snd (fst (fst ALL)).\nPrint V.\n"
            "Definition H := Eval vm_compute in hash_mismatches hs.\nPrint H.\n"
-           "Definition Y := Eval vm_compute in snd ALL.\nPrint Y.\n")
+           "Definition Y := Eval vm_compute in snd (fst ALL).\nPrint Y.\n"
+           "Definition HF := Eval vm_compute in snd ALL.\nPrint HF.\n")
     rc, out = ck.coq_eval(name, txt)
     if rc != 0:
         return None, None, None, out
@@ -148,7 +151,8 @@ def eval_cases(ck, name, cases, hashes):
     m = re.search(r"M = (?:\[(.*?)\]|nil)\s*: list Z", flat)
     v = re.search(r"V = (?:\[(.*?)\]|nil)\s*: list \(Z \* Z\)", flat)
     h = re.search(r"H = (?:\[(.*?)\]|nil)\s*: list Z", flat)
-    if not d or not m or not v or not h:
+    hf = re.search(r"HF = (?:\[(.*?)\]|nil)\s*: list Z", flat)
+    if not d or not m or not v or not h or not hf:
         return None, None, None, out
     ints = lambda s: [int(x) for x in re.findall(r"-?\d+", s or "")]
     y = re.search(r"Y = \((\d+), (\d+), (\d+)\)", flat)
@@ -158,6 +162,7 @@ def eval_cases(ck, name, cases, hashes):
         ck.extra["observed_trees_meeting_levels_nest_hypotheses"] = ck.extra.get("observed_trees_meeting_levels_nest_hypotheses", 0) + int(y.group(3))
     if ints(d.group(1)):
         return None, None, None, "cases at positions %s of %s did not decode (wire format / rd_case out of step)" % (ints(d.group(1)), name)
+    ck.extra.setdefault("hypothesis_fails_in_cases", []).extend(ints(hf.group(1)))
     vv = ints(v.group(1))
     return ints(m.group(1)), dict(zip(vv[0::2], vv[1::2])), ints(h.group(1)), out
 
@@ -272,29 +277,36 @@ def run_corr(ck):
         spec.update(v)
         hm += h
     hc, hh = ck.extra.get("hypothesis_checked", 0), ck.extra.get("hypothesis_holds", 0)
+    # the only profiles on which the hypothesis may fail are the recorded collision witnesses (spec result 3)
+    hyp_fail = sorted(set(ck.extra.get("hypothesis_fails_in_cases", [])))
+    unexplained = [i for i in hyp_fail if spec.get(i) != 3]
     ck.obligation("hypothesis of tree_conserves (node ids determine the parent on the occurring triples) holds under the real hash "
-                  "on every checked generated profile (%d of %d)" % (hh, hc), hc > 0 and hh == hc,
-                  "a collision of city.CH64>>9 inside one profile: the theorem does not apply to that profile (not a defect by itself)")
+                  "on every checked generated profile (%d of %d; it fails exactly on the recorded collision witnesses %s)" % (hh, hc, hyp_fail),
+                  hc > 0 and not unexplained,
+                  "cases %s: a collision of city.CH64>>9 inside one profile that is not a recorded witness: the theorem does not apply to that profile" % unexplained[:10])
     ck.obligation("city16 (model of city.CH64 on 16 bytes) = implementation on %d buffers" % len(hashes), not hm, "ids %s" % hm[:10])
     ck.obligation("correspondence: post_process / merge_trie / bfs = implementation on %d cases" % len(tcases), not mism,
                   "mismatching case ids: %s" % mism[:10])
     viol = [i for i, r in spec.items() if r == 2]
-    known = [i for i, r in spec.items() if r == 1]
     findings = ck.known_findings()
-    unexpected_known = []
-    for i in known:
-        # result 1 = conservation holds, root totals equal the weight of the samples WITH frames, but not of all samples
-        if has_empty_stack(byid[i]) and EMPTY_STACK_FINDING in findings:
-            ck.report_known(EMPTY_STACK_FINDING, "case %d: a sample without locations carries weight that no tree node receives "
-                            "(values_agg counts it, the root totals do not)" % i)
-        else:
-            unexpected_known.append(i)
-    viol += unexpected_known
+    # results 3 / 4 are the two recorded node-id collision findings, keyed by the collision itself: 3 = the hypothesis of
+    # tree_conserves fails under the real hash for a profile of the case (two frames, different parents, one node id) and only
+    # per-node conservation is broken; 4 = every profile is fine but the merged tree holds one node id under two parents
+    for res, fid, what in ((3, COLLISION_IN, "two frames of one profile with different parents share a node id (55 bits of city.CH64): "
+                            "the second frame's weight goes to the first frame's node, its own parent keeps a total no child accounts for, "
+                            "the bar of the shared node is wider than its parent's"),
+                           (4, COLLISION_ACROSS, "two profiles store the same node id under different parents: Tree.Nodes is keyed by the "
+                            "parent's id alone and BFS returns at the first id met twice, the flame graph loses the levels from there on")):
+        for i in sorted(k for k, r in spec.items() if r == res):
+            if fid in findings and str(byid[i]["class"]).startswith("corpus:"):
+                ck.report_known(fid, "case %d (%s): %s" % (i, byid[i]["class"], what))
+            else:
+                viol.append(i)
+        if fid in findings and not any(r == res for r in spec.values()):
+            ck.obligation("known finding %s still reproduces on its corpus witness" % fid, False,
+                          "no corpus case showed it: remove the finding line if the code was repaired")
     ck.obligation("spec oracles (stored once, per-node conservation, root sum, merged = sum, levels nest) accept every observation",
                   not viol, "violating case ids: %s" % viol[:10])
-    if EMPTY_STACK_FINDING in findings and not known:
-        ck.obligation("known finding %s still reproduces" % EMPTY_STACK_FINDING, False,
-                      "no generated case showed it: remove the finding line (and the _refuted theorem) if the code was repaired")
     if viol:
         worst = min((byid[i] for i in viol), key=case_size)
         ck.violation({"property": "C16", "kind": "observed rows/tree/levels violate the property", "case": slim(worst),
